@@ -122,12 +122,16 @@ def search_raw_operators(chk, r, thorough):
 def search_multi_nf(chk, r, n):
     """one ZM-VFNS run across heavy-quark thresholds: the scale-variation entries of every point
     must be those of its own nf (= those of its single-point run)"""
-    for _ in range(n):
-        kind = r.choice(cards.UNPOL)
-        process = r.choice(["EM", "NC", "CC"])
+    for i_case in range(n):
+        # only observables with a leading-order term have a factorisation log at NLO (FL starts at
+        # a_s, F3 needs a parity-violating exchange): anything else would make the comparison vacuous
+        kind = r.choice(["F2", "F2", "F3"])
+        process = r.choice(["EM", "NC", "CC"]) if kind == "F2" else r.choice(["NC", "CC"])
         name = f"{kind}_{r.choice(['total', 'light'])}"
         x = float(r.choice([0.05, 0.3]))
         q2s = r.sample([1.5, 3.0, 30.0, 300.0], 3)
+        if i_case == 0:
+            kind, process, name, x, q2s = "F2", "NC", "F2_total", 0.05, [1.5, 30.0, 300.0]
         kw = dict(prDIS=process, interpolation_xgrid=cards.default_grid(8))
         th = cards.theory(PTO=1, FNS="ZM-VFNS", Q0=1.0)
         try:
@@ -144,7 +148,8 @@ def search_multi_nf(chk, r, n):
                 if (k[2] > 0 or k[3] > 0) and not np.array_equal(np.asarray(a.orders[k][0]), np.asarray(b.orders[k][0])):
                     bad.append(f"Q2={q} key {k}")
         sample = dict(obs=name, process=process, x=x, Q2s=q2s, differing=bad[:6])
-        chk.search_case("sv_terms_use_point_nf", not bad, what="scale-variation entries depend on the other points of the run: " + ", ".join(bad[:3]), data=sample, sample=sample)
+        nontriv = any(np.any(np.asarray(v[0]) != 0) for b in singles for k, v in b.orders.items() if k[2] > 0 or k[3] > 0)
+        chk.search_case("sv_terms_use_point_nf", not bad, what="scale-variation entries depend on the other points of the run: " + ", ".join(bad[:3]), data=sample, sample=sample, nontrivial=nontriv)
 
 
 def search_sector_mapping(chk, r):
